@@ -47,20 +47,73 @@ class Runaway(BaseException):
 SLACK = 3
 
 
-class GenError(Exception):
-    pass
-
-
-class StepError(Exception):
-    pass
-
-
-class FactoryError(Exception):
-    pass
-
-
 class ProviderError(Exception):
-    pass
+    """an exception class the library has never heard of (class id 0)"""
+
+
+# The exception CLASSES the scripted environment raises (class id -> class).  0 is a class the library has never
+# heard of; 1..4 are the library's own provider-error family (operon_ai.providers: NucleusError and its three
+# subclasses - what a real provider raises for an outage / a rate limit / a bad answer); 5..8 are builtins a
+# network client raises; 9 is a foreign subclass of the library's ProviderUnavailableError.  An item ["raise"] is
+# class 0, ["raise", x] class x.
+N_EXC = 10
+LIB_EXC = (1, 2, 3, 4, 9)
+EXC_NAMES = ["an exception class unknown to the library", "operon_ai.providers.NucleusError",
+             "operon_ai.providers.ProviderUnavailableError", "operon_ai.providers.QuotaExhaustedError",
+             "operon_ai.providers.TranscriptionFailedError", "TimeoutError", "ConnectionResetError", "RuntimeError",
+             "LookupError", "a subclass of operon_ai.providers.ProviderUnavailableError"]
+
+
+def exc_classes():
+    from operon_ai import providers as P
+
+    class StubOutage(P.ProviderUnavailableError):
+        """a provider's own subclass of the library's 'unreachable' error"""
+
+    return {0: ProviderError, 1: P.NucleusError, 2: P.ProviderUnavailableError, 3: P.QuotaExhaustedError,
+            4: P.TranscriptionFailedError, 5: TimeoutError, 6: ConnectionResetError, 7: RuntimeError, 8: LookupError,
+            9: StubOutage}
+
+
+def exc_of(item):
+    """class id of a ["raise" ...] / ["raisefinal" ...] item"""
+    return item[1] if len(item) > 1 else 0
+
+
+class StubRaiser:
+    """makes the environment's exceptions and recognises them again (by identity) when they come out of the loop"""
+
+    def __init__(self):
+        self.classes = exc_classes()
+        self.made = []
+
+    def make(self, x, msg):
+        e = self.classes[x](msg)
+        self.made.append(e)
+        return e
+
+    def class_id(self, e):
+        """class id of an exception THE STUBS raised (the very object), else None"""
+        if not any(e is m for m in self.made):
+            return None
+        for x, c in self.classes.items():
+            if type(e) is c:
+                return x
+        return -1
+
+
+class VirtualTime:
+    """stands in for the `time` module inside operon_ai.organelles.nucleus: sleeping advances a virtual clock
+    instead of blocking (a back-off must not slow the check down); everything else is the real module"""
+
+    def __init__(self, real):
+        self._real, self.slept = real, []
+
+    def sleep(self, seconds):
+        self.slept.append(seconds)
+
+    def __getattr__(self, name):
+        return getattr(self._real, name)
 
 
 def out_string(kind, val):
@@ -155,6 +208,8 @@ def ev_prov(p, k, prev, q=0):
         if not prev:
             return ["resp", p["c"], p["first"]]
         return ["resp", p["c"] + k, [10 * (abs(r) % 50) + k % 3 for r in prev]]
+    if fam == "flaky":     # a transient failure every `period` invocations (at phase), otherwise `tools`
+        return ["raise", p["exc"]] if k % p["period"] == p["phase"] else p["tools"]
     raise ValueError(fam)
 
 
@@ -186,7 +241,19 @@ class C18(Check):
             "not a SimpleWorker and records errors in its memory (error hints reach the next worker), a step_timeout, "
             "get_total_energy_consumed/get_total_tokens_used called inside every tool and between calls, a ProviderConfig, "
             "non-default Nucleus.base_energy_cost/max_retries - none of which the model sees, so any effect on an observation is a "
-            "mismatch. non-trivial = at least one environment invocation; distinct by case content")
+            "mismatch. EXCEPTION CLASSES: whatever the environment raises is drawn from an alphabet of 10 classes - a class the "
+            "library does not know, the library's own provider errors (NucleusError, ProviderUnavailableError, QuotaExhaustedError, "
+            "TranscriptionFailedError), builtins (TimeoutError, ConnectionResetError, RuntimeError, LookupError), a foreign subclass "
+            "of ProviderUnavailableError; for the tool loop the class is modelled (a failure at invocation 0..3 of every class "
+            "after which the provider goes on requesting tools = a transient outage, a provider failing periodically, a failing "
+            "plain / final completion, a failing nested call; default and non-default Nucleus.max_retries) and the class that "
+            "reaches the caller is compared; for heal / swarm the class is an aspect the model does not see. time.sleep inside "
+            "operon_ai.organelles.nucleus runs on a virtual clock. LONG-LIVED OBJECTS: one loop / swarm / nucleus used for 10 and "
+            "25 (thorough: 60) consecutive calls (random: 7..31), the swarm's behaviour table repeating over its whole life, so "
+            "that the object's cumulative state (worker counter, the two shared event logs with up to some hundred recorded "
+            "worker deaths, transcription log) dwarfs a single call's; every call is checked on its own and what each SwarmResult "
+            "shows of the cumulative state (total_workers_spawned, lengths of the shared logs) is compared with the model. "
+            "non-trivial = at least one environment invocation; distinct by case content")
     LEVEL_TEXT = ("Coq theorems for ALL generator / validator / worker / factory / provider / tool functions and all integer limits about "
                   "hand-written models of ChaperoneLoop.heal, RegenerativeSwarm.supervise/_run_worker (also with factory + workers as "
                   "ONE state machine over an arbitrary state type: workers own, trim, pre-fill or never write their memory, share "
@@ -195,7 +262,11 @@ class C18(Check):
                   "validator-accepted structure, otherwise tagged with confidence 0, success only with a marker, <= max_iterations tool "
                   "rounds + 1 completion for EVERY activation of the tool loop (outermost or nested at any depth through tools that "
                   "re-enter the same nucleus; environment = state machines over an arbitrary state type; any entry state and log, any "
-                  "sequence of calls), and for every call of a history of consecutive heal() / supervise() calls on one object. "
+                  "sequence of calls), and for every call of a history of consecutive heal() / supervise() calls on one object; "
+                  "for a long-lived swarm OBJECT in any state (any worker counter, event logs of any length) every call keeps "
+                  "its budgets and only appends to the counter / logs (the logs are ghost state: no run reads them); an "
+                  "exception that leaves a tool-loop activation is, whatever its class, the one its last provider invocation "
+                  "raised (nothing swallowed, converted or retried with a fresh budget). "
                   "The models are tied to the code by evaluating them in Coq on every scripted case the real "
                   "classes ran (limits 0..4 x adversary families exhaustively) and a Python monitor checks the property on every "
                   "implementation trace.")
@@ -220,12 +291,20 @@ class C18(Check):
                "confidence arithmetic compared exactly only for dyadic confidence_decay (binary64 exact there); entropy thresholds "
                "are dyadic or in [0.5,2] so 1 - threshold is exact and never within 1e-9 of 1/3, 2/3",
                "the error context is identified through the loop's own _format_error_context; the monitor additionally requires the "
-               "error trace text to occur in the context string"]
+               "error trace text to occur in the context string",
+               "exceptions: an exception is 'the environment's own' when it is the very object a stub raised (identity) and has "
+               "the class it was raised with; the provider's exception classes are ids 0..9 in the model; time.sleep inside "
+               "operon_ai.organelles.nucleus is replaced by a virtual clock (module attribute rebound for the duration of a case)",
+               "swarm object state: the model carries _worker_counter and the two event logs as (worker, reported steps) / (old, new) "
+               "pairs; compared through total_workers_spawned and the lengths of the lists a SwarmResult returns (which ARE the "
+               "object's shared logs) and, per call, the new events' worker ids and step counts"]
     ASSUMPTIONS = ["environment callables (generator, worker.step, factory, provider, tools) are deterministic functions of what the "
                    "loop passes them and of their own invocation index",
-                   "heal()/supervise() are driven once on fresh objects and 2..4 times on one object (RegenerativeSwarm._worker_counter "
-                   "is cumulative across supervise() calls: a later call's workers continue the numbering; total_workers_spawned is "
-                   "only demanded of the first call); the tool loop is also driven re-entrantly and repeatedly on one object",
+                   "heal()/supervise() are driven once on fresh objects, 2..4 times and 10..60 times on one object "
+                   "(RegenerativeSwarm._worker_counter is cumulative across supervise() calls: a later call's workers continue the "
+                   "numbering; the monitor demands total_workers_spawned only of the first call, the correspondence compares the "
+                   "cumulative value on every call); the tool loop is also driven re-entrantly and up to 60 times on one object; "
+                   "limits stay fixed over an object's life",
                    "console output (silent=False) is captured into a StringIO; real LLM providers (API key present) are not driven - "
                    "auto-detection is exercised only down to the MockProvider fallback with the three API-key variables removed",
                    "stub provider = function of its own global invocation index, the base prompt and the tool results in the prompt "
@@ -350,6 +429,16 @@ class C18(Check):
             provs.append({"fam": "script", "items": [R(5, [k * 10 + 1])] * k + [R(60 + k, [])], "dflt": R(5, [3])})   # plain at k
             provs.append({"fam": "script", "items": [R(5, [20])] * k + [R(71 + 2 * k, [])], "dflt": R(5, [0])})       # None tool list at k
             provs.append({"fam": "script", "items": [R(5, [30, 41])] * k + [["raise"]], "dflt": R(5, [0])})
+        # a failure at invocation k of EVERY class of the alphabet (the library's own provider errors, builtins, a
+        # foreign subclass), after which the provider goes on requesting tools: a transient outage
+        xprovs = []
+        for k in range(0, 5 if deep else 4):
+            for x in range(1, N_EXC):
+                if not deep and x not in LIB_EXC and k != 1 + x % 3:     # quick tier: builtins at one position each
+                    continue
+                xprovs.append({"fam": "script", "items": [R(5, [30 + k, 41])] * k + [["raise", x]], "dflt": R(5, [k])})
+        for x in LIB_EXC:
+            xprovs.append({"fam": "flaky", "period": 2 + x % 3, "phase": 1 + x % 2, "exc": x, "tools": R(5, [10 * x, 21])})
         provs.append({"fam": "stoponerr", "tools": R(6, [10, 20]), "plain": R(80, [])})
         provs.append({"fam": "stoponerr", "tools": R(6, [11]), "plain": R(81, [])})
         provs.append({"fam": "stoponerr", "tools": R(6, [13]), "plain": R(82, [])})
@@ -364,7 +453,8 @@ class C18(Check):
             for mi in limits:
                 for ts in toolsets if deep else toolsets[:2]:
                     i += 1
-                    out.append({"kind": "tool", "prov": p, "comp": comps[i % 3], "tools": ts, "auto": True,
+                    comp = comps[i % 3] if i % 3 != 2 else ["raisefinal", (i // 3) % N_EXC]
+                    out.append({"kind": "tool", "prov": p, "comp": comp, "tools": ts, "auto": True,
                                 "has_method": True, "max_iter": mi})
                 out.append({"kind": "tool", "prov": p, "comp": ["aff", 300], "tools": [True, False], "auto": False,
                             "has_method": True, "max_iter": mi})
@@ -373,11 +463,22 @@ class C18(Check):
                             "has_method": True, "max_iter": mi})
                 out.append({"kind": "tool", "prov": p, "comp": ["aff", 500], "tools": [True], "auto": True,
                             "has_method": False, "max_iter": mi})
+        for p in xprovs:                # every class of the alphabet; the default Nucleus (max_retries = 3) unless decorated
+            for mi in (1, 2, 3, 4) + ((0, 6, -1) if deep else ()):
+                for ts in toolsets[:2] if deep or p["fam"] == "flaky" else toolsets[:1]:
+                    i += 1
+                    comp = comps[i % 3] if i % 3 != 2 else ["raisefinal", (i // 3) % N_EXC]
+                    out.append({"kind": "tool", "prov": p, "comp": comp, "tools": ts, "auto": True,
+                                "has_method": True, "max_iter": mi})
         out.append({"kind": "tool", "prov": provs[0], "comp": ["raise"], "tools": [], "auto": True, "has_method": True, "max_iter": 3})
         out.append({"kind": "tool", "prov": provs[0], "comp": ["raise"], "tools": [True], "auto": True, "has_method": True, "max_iter": 0})
-        return out + self._reentrant_tool_cases(deep, provs)
+        for x in range(1, N_EXC):       # the plain completion fails with every class (with and without a tool loop before it)
+            for mi, ts, hm in ((3, [], True), (0, [True], True), (2, [True, False], True), (2, [True], False)):
+                out.append({"kind": "tool", "prov": provs[0], "comp": ["raise", x], "tools": ts, "auto": True,
+                            "has_method": hm, "max_iter": mi})
+        return out + self._reentrant_tool_cases(deep, provs, xprovs)
 
-    def _reentrant_tool_cases(self, deep, provs):
+    def _reentrant_tool_cases(self, deep, provs, xprovs):
         """tools that use the SAME nucleus while a round is being executed (sub-agent as a tool, clear_log, a plain
         question), and consecutive calls on one nucleus / provider / mitochondria"""
         out = []
@@ -389,6 +490,8 @@ class C18(Check):
             {"fam": "script", "items": [], "dflt": R(1, [0])},               # tools forever at every level
             {"fam": "script", "items": [], "dflt": R(2, [0, 11])},           # two calls per round, forever, at every level
             {"fam": "bysub", "top": R(1, [10, 1]), "sub": ["raise"]},        # the nested call's provider raises
+            {"fam": "bysub", "top": R(1, [0, 11]), "sub": ["raise", 2]},     # ... with the library's "unreachable" error
+            {"fam": "flaky", "period": 3, "phase": 2, "exc": 3, "tools": R(1, [0, 11])},   # transient, at every level
             {"fam": "bysub", "top": R(3, [31]), "sub": R(9, [])},            # only the second tool is requested
             {"fam": "script", "items": [R(4, [0]), R(4, []), R(4, [10]), R(5, [1]), R(6, [])], "dflt": R(4, [0])},
             {"fam": "stoponerr", "tools": R(6, [10, 1]), "plain": R(80, [])},
@@ -419,7 +522,9 @@ class C18(Check):
                                     "has_method": True, "max_iter": mi, "depth": dp})
         # consecutive calls on one nucleus (plain and re-entrant tools)
         seqs = [[[2, True]], [[1, True], [3, True]], [[0, True], [4, False], [2, True]]]
-        for p in rprovs[:4] + provs[:3] + [provs[-1]]:
+        flaky = [q for q in xprovs if q["fam"] == "flaky"][:2] + [q for q in xprovs if q["fam"] == "script"
+                                                                 and len(q["items"]) == 3][:3]
+        for p in rprovs[:4] + provs[:3] + [provs[-1]] + flaky:
             for ts in ([True, False], [N(2), True], ["clear", True], [N(1), "clear"]):
                 for mi in (0, 1, 2, 4):
                     for more in seqs:
@@ -444,6 +549,8 @@ class C18(Check):
             c = dict(c)
             if i % 3 == 1:
                 c["loud"] = True
+            if k in ("heal", "swarm") and i % 2 == 0:       # the class of the generator's / factory's / workers' exceptions
+                c["exc"] = (i // 2) % N_EXC
             if k == "swarm":
                 if i % 4 == 2:
                     c["wk"] = "proto"
@@ -599,6 +706,73 @@ class C18(Check):
                         out.append(c)
         return out
 
+    def _long_lived_cases(self, deep, i=0):
+        """LONG-LIVED objects: ONE loop / swarm / nucleus kept and used for dozens of consecutive calls, so that whatever
+        the object accumulates over its life (the swarm's worker counter and its two shared event logs - dozens to
+        hundreds of recorded worker deaths -, the nucleus' transcription log, the chaperone's statistics) is far larger
+        than anything a single call produces.  Each call is checked on its own, exactly like the first."""
+        o = self._out
+        out = []
+        longs = (10, 25) if not deep else (10, 25, 60)
+        # swarm: the behaviour table of (max_regenerations + 3) workers is repeated over the object's whole life, so
+        # successes, raising steps / factories and failures recur in later calls too
+        lfams = [("stuck", 3), ("fresh",), ("alt",), ("aab",), ("marker", 2, 1, 3, -1), ("marker", 1, 0, 2, 7),
+                 ("raise", 1, 2, -1), ("facraise", 3, -1)]
+        for fam in lfams:
+            for mg in (0, 1, 2, 3, 4):
+                for ncalls in longs:
+                    i += 1
+                    ms = [3, 1, 4, 2, 5][i % 5]
+                    fac0, tab0, d = self._swarm_table(fam, mg + 3, ms + 2)
+                    nw = (mg + 1) * ncalls + 2
+                    reps = nw // len(tab0) + 1
+                    c = {"kind": "swarm", "max_regen": mg, "max_steps": ms, "thr": [0.9, 0.5, 0.0][i % 3], "fam": fam[0],
+                         "fac": (fac0 * reps)[:nw], "beh": (tab0 * reps)[:nw], "dflt": d, "again": ncalls - 1}
+                    if i % 4 == 1:
+                        c = {"kind": "swarm", "mem": MEM_POLICIES[(i // 4) % len(MEM_POLICIES)], **c}
+                    elif i % 4 == 3:
+                        c["wk"] = "proto"
+                    if i % 5 == 0:
+                        c["loud"] = True
+                    if fam[0] in ("raise", "facraise"):
+                        c["exc"] = i % N_EXC
+                    out.append(c)
+        # heal: the generator goes on counting over all calls
+        hb = self._heal_behaviours(False)
+        for g in hb[::8] if not deep else hb[::4]:
+            for mr in (0, 1, 3) if not deep else (0, 1, 3, 4):
+                for ncalls in longs[:2]:
+                    i += 1
+                    mode, ns = [("real", 4), ("stub", 0), ("real", 2)][i % 3]
+                    c = {"kind": "heal", "mode": mode, "nstrat": ns, "gen": g, "decay": DECAYS[i % len(DECAYS)],
+                         "max_retries": mr, "again": ncalls - 1}
+                    if i % 3 == 0:
+                        c["exc"] = i % N_EXC
+                    out.append(c)
+        # tool loop: dozens of calls on one nucleus / provider / mitochondria; transient provider failures recur
+        R = lambda c, calls: ["resp", c, calls]
+        lprovs = [{"fam": "script", "items": [], "dflt": R(1, [0])},
+                  {"fam": "chain", "c": 7, "first": [10]},
+                  {"fam": "flaky", "period": 4, "phase": 2, "exc": 2, "tools": R(5, [0, 11])},
+                  {"fam": "flaky", "period": 3, "phase": 0, "exc": 3, "tools": R(5, [10])},
+                  {"fam": "flaky", "period": 7, "phase": 5, "exc": 9, "tools": R(5, [0])},
+                  {"fam": "flaky", "period": 5, "phase": 1, "exc": 6, "tools": R(5, [21, 0])},
+                  {"fam": "bysub", "top": R(1, [0]), "sub": R(2, [11])}]
+        for p in lprovs:
+            for ts in ([True, False], [["nest", 2, True], True]) + ((["clear", True],) if deep else ()):
+                for mi in (1, 3) if not deep else (1, 2, 3, 4):
+                    for ncalls in longs[:2]:
+                        i += 1
+                        more = [[[mi, 0, 4, mi, -1, 2][(i + j) % 6] if i % 2 else mi, True] for j in range(ncalls - 1)]
+                        c = {"kind": "tool", "prov": p, "comp": [["aff", 100], ["raisefinal", i % N_EXC], ["aff", 200]][i % 3],
+                             "tools": ts, "auto": True, "has_method": True, "max_iter": mi, "depth": 1, "more": more}
+                        if i % 4 == 0:
+                            c["acc"] = True
+                        if i % 5 == 0:
+                            c["nuc"] = [[0, 0], [1, 1], [25, 7], [10, -1]][(i // 5) % 4]
+                        out.append(c)
+        return out
+
     @staticmethod
     def _mock_tool_case(names, tools, max_iter, auto, depth=1):
         """Nucleus() without a provider and without API keys: _auto_detect_provider falls back to the library's
@@ -612,8 +786,19 @@ class C18(Check):
 
     def exhaustive_cases(self):
         deep = self.tier != "quick"
-        return (self._decorate(self._heal_cases(deep) + self._swarm_cases(deep) + self._tool_cases(deep))
+        base = (self._decorate(self._heal_cases(deep) + self._swarm_cases(deep) + self._tool_cases(deep))
                 + self._extra_cases(deep))
+        # the long-lived histories are spread evenly over the case list (their observations are long: the Coq
+        # evaluation is sharded by position, and one shard holding all of them would be the long pole)
+        ll = self._long_lived_cases(deep)
+        step = max(1, len(base) // (len(ll) + 1))
+        out, j = [], 0
+        for idx, c in enumerate(base):
+            out.append(c)
+            if (idx + 1) % step == 0 and j < len(ll):
+                out.append(ll[j])
+                j += 1
+        return out + ll[j:]
 
     # -- random scripts ------------------------------------------------------
     def _rand_item(self, rng, p_valid=0.25, p_raise=0.06):
@@ -647,6 +832,10 @@ class C18(Check):
             case["loud"] = True
         if rng.random() < 0.2:
             case["again"] = rng.randint(1, 3)
+        elif rng.random() < 0.04:      # a long-lived loop
+            case["again"] = rng.randint(6, 30)
+        if rng.random() < 0.5:
+            case["exc"] = rng.randrange(N_EXC)
         if rng.random() < 0.08:
             case["max_retries"] = HEAL_DEFAULTS["max_retries"]
             case["omit"] = ["max_retries"]
@@ -656,6 +845,8 @@ class C18(Check):
         mg = rng.choice([-1, 0, 1, 2, 3, 4, 5])
         ms = rng.choice([0, 1, 2, 3, 4, 5, 6, 7, 8])
         again = rng.randint(1, 3) if rng.random() < 0.2 else 0
+        if again == 0 and rng.random() < 0.06:      # a long-lived swarm
+            again = rng.randint(6, 30)
         omit = []
         if rng.random() < 0.08:
             omit = rng.choice([["max_regen"], ["max_steps"], ["thr"], ["max_regen", "max_steps"]])
@@ -691,6 +882,8 @@ class C18(Check):
                                                         ["window", rng.randint(0, 3)], "none"]), **case}
         if rng.random() < 0.2:
             case["timeout"] = rng.choice([0.0, 1e-9, 0.001, 30.0])
+        if rng.random() < 0.5:
+            case["exc"] = rng.randrange(N_EXC)
         return case
 
     def _rand_tool(self, rng):
@@ -698,10 +891,14 @@ class C18(Check):
             return [10 * rng.randint(0, 6) + rng.randint(0, 3) for _ in range(rng.choice([0, 1, 1, 2, 3]))]
 
         def pitem(p_raise=0.05):
-            return ["raise"] if rng.random() < p_raise else ["resp", rng.randint(0, 99), calls()]
+            return ["raise", rng.randrange(N_EXC)] if rng.random() < p_raise else ["resp", rng.randint(0, 99), calls()]
         f = rng.random()
-        if f < 0.5:
-            p = {"fam": "script", "items": [pitem() for _ in range(rng.randint(0, 9))], "dflt": pitem(0.02)}
+        if f < 0.42:
+            p = {"fam": "script", "items": [pitem(0.1) for _ in range(rng.randint(0, 9))], "dflt": pitem(0.02)}
+        elif f < 0.5:
+            per = rng.randint(1, 7)
+            p = {"fam": "flaky", "period": per, "phase": rng.randrange(per), "exc": rng.randrange(N_EXC),
+                 "tools": ["resp", rng.randint(0, 9), calls() or [1]]}
         elif f < 0.65:
             p = {"fam": "stoponerr", "tools": ["resp", rng.randint(0, 9), calls() or [1]], "plain": pitem(0.1)}
         elif f < 0.8:
@@ -715,7 +912,8 @@ class C18(Check):
                 return rng.choice([["nest", rng.randint(-1, 3), rng.random() < 0.85], "clear", "ask",
                                    ["nest", rng.randint(0, 2), True]])
             return rng.random() < 0.6
-        case = {"kind": "tool", "prov": p, "comp": rng.choice([["aff", rng.randint(0, 900)], ["aff", 5], ["raisefinal"], ["raise"]]),
+        case = {"kind": "tool", "prov": p, "comp": rng.choice([["aff", rng.randint(0, 900)], ["aff", 5],
+                                                               ["raisefinal", rng.randrange(N_EXC)], ["raise", rng.randrange(N_EXC)]]),
                 "tools": [tool() for _ in range(rng.choice([0, 1, 2, 3, 4]))],
                 "auto": rng.random() < 0.85, "has_method": rng.random() < 0.9,
                 "max_iter": rng.choice([-1, 0, 1, 2, 3, 4, 5, 6])}
@@ -727,6 +925,8 @@ class C18(Check):
                                         case.get("depth", 1))
         if rng.random() < 0.3:
             case["more"] = [[rng.choice([-1, 0, 1, 2, 3, 4]), rng.random() < 0.85] for _ in range(rng.randint(1, 2))]
+        elif rng.random() < 0.05:      # a long-lived nucleus
+            case["more"] = [[rng.choice([0, 1, 2, 3, 4]), rng.random() < 0.9] for _ in range(rng.randint(6, 25))]
         if rng.random() < 0.06:
             case["omit"] = rng.choice([["max_iter"], ["auto"], ["max_iter", "auto"]])
             if "max_iter" in case["omit"]:
@@ -802,6 +1002,8 @@ class C18(Check):
                 return EnhancedFoldedProtein(valid=False, raw_peptide_chain=raw, error_trace=trace, confidence=0.0)
 
         loud = bool(case.get("loud"))
+        stubs = StubRaiser()
+        xcls = case.get("exc", 0)      # the class of the generator's exceptions
         misfolds = []                  # Chaperone's optional on_misfold callback (a recording one, loud cases)
 
         def mk_chaperone(callback=None):
@@ -851,7 +1053,9 @@ class C18(Check):
                 it = ev_gen(g, kg, ec)
             if it[0] == "raise":
                 outputs.append(None)
-                raise GenError(k)
+                e = stubs.make(xcls, f"stub-generator-{k}")
+                e._c18 = ("gen", k)
+                raise e
             if it[0] == "echo":
                 s, oid = f"#{kg} {error_context}", it[1]
             else:
@@ -880,12 +1084,13 @@ class C18(Check):
             res, exc = None, None
             try:
                 res = loop.heal("prompt")
-            except GenError as e:
-                exc = ("gen", e.args[0])
             except Runaway as e:
                 exc = ("other", f"runaway {e}")
-            except Exception as e:  # anything else is not the environment's exception
-                exc = ("other", f"{type(e).__name__}: {e}")
+            except Exception as e:  # the generator's own exception (the very object), or something else
+                if stubs.class_id(e) is not None and stubs.class_id(e) == xcls:
+                    exc = e._c18
+                else:
+                    exc = ("other", f"{type(e).__name__}: {e}")
             rcalls, routs = calls[start[0]:], outputs[start[0]:]
             run = {"calls": rcalls, "outputs": routs, "exc": exc, "res": None}
             runs.append(run)
@@ -927,6 +1132,13 @@ class C18(Check):
         wbound = max(0, case["max_regen"] + 1)
         proto = case.get("wk") == "proto"
         loud = bool(case.get("loud"))
+        stubs = StubRaiser()
+        xcls = case.get("exc", 0)      # the class of the factory's / the workers' exceptions
+
+        def stub_exc(what, arg):
+            e = stubs.make(xcls, f"stub-{what}-{arg}")
+            e._c18 = (what, arg)
+            return e
 
         def beh(w, j):
             if w < len(tab) and j < len(tab[w]):
@@ -976,7 +1188,7 @@ class C18(Check):
             if len(spawned) - start[0] > wbound + SLACK:
                 raise Runaway("factory")
             if w < len(fac) and not fac[w]:
-                raise FactoryError(w)
+                raise stub_exc("factory", w)
 
             def work(task, memory):
                 j = len(steps[w])
@@ -986,7 +1198,7 @@ class C18(Check):
                 st = beh(w, j)
                 if st[0] == "raise":
                     steps[w].append(None)
-                    raise StepError((w, j))
+                    raise stub_exc("step", (w, j))
                 s = worker_string(st[1], st[2])
                 h = hashlib.md5(s.encode()).hexdigest()[:8]
                 if seen_strings.setdefault(h, s) != s:
@@ -1048,14 +1260,13 @@ class C18(Check):
             res, exc = None, None
             try:
                 res = swarm.supervise("task")
-            except FactoryError as e:
-                exc = ("factory", e.args[0])
-            except StepError as e:
-                exc = ("step", e.args[0])
             except Runaway as e:
                 exc = ("other", f"runaway {e}")
-            except Exception as e:
-                exc = ("other", f"{type(e).__name__}: {e}")
+            except Exception as e:  # the factory's / a worker's own exception (the very object), or something else
+                if stubs.class_id(e) is not None and stubs.class_id(e) == xcls:
+                    exc = e._c18
+                else:
+                    exc = ("other", f"{type(e).__name__}: {e}")
             rsp = spawned[w0:]
             run = {"w0": w0, "spawned": rsp, "steps": {w: steps[w] for w in rsp}, "exc": exc, "res": None}
             runs.append(run)
@@ -1088,6 +1299,8 @@ class C18(Check):
             obs += [[21, wid(r.old_worker_id) - w0, wid(r.new_worker_id) - w0] for r in new_rg]
             obs += [[22, wid(a.worker_id) - w0, parse_details(a.details)] for a in res.apoptosis_events[n_ap:]]
             n_ap, n_rg = len(res.apoptosis_events), len(res.regeneration_events)
+            # what the result shows of the OBJECT's cumulative state (the logs are shared by all runs of the swarm)
+            obs += [[23, int(res.total_workers_spawned), n_ap, n_rg]]
             run["res"] = {"success": bool(res.success), "output": out, "total": res.total_workers_spawned,
                           "final": final if final is not None else -1}
         r0 = runs[0]
@@ -1121,6 +1334,8 @@ class C18(Check):
         cfg = ProviderConfig(temperature=0.0, max_tokens=7, timeout_seconds=0.5, system_prompt="sys") if case.get("cfg") else None
         peeks = []      # values returned by the read-only accessors (case['acc'])
         mock_default = MockProvider().default_response
+        stubs = StubRaiser()
+        raised = []     # (provider method, its invocation index, exception class) of every exception the provider raised
 
         def cid(content):
             """response content -> id (stub responses are 'r<id>'; MockProvider: '' with tool calls, else its default)"""
@@ -1186,7 +1401,8 @@ class C18(Check):
                     return real["p"].complete(prompt, config)
                 c = case["comp"]
                 if c[0] == "raise" or (c[0] == "raisefinal" and final):
-                    raise ProviderError("provider-complete")
+                    raised.append(("complete", sum(f["nc"] for f in frames) - 1, exc_of(c)))
+                    raise stubs.make(exc_of(c), "provider-complete")
                 if c[0] == "raisefinal":
                     return resp(0)
                 if c[0] == "const":
@@ -1208,7 +1424,8 @@ class C18(Check):
                     return real["p"].complete_with_tools(prompt, tools, config)
                 it = ev_prov(case["prov"], k, prev, q)
                 if it[0] == "raise":
-                    raise ProviderError(f"provider-{k}")
+                    raised.append(("complete_with_tools", k, exc_of(it)))
+                    raise stubs.make(exc_of(it), f"provider-{k}")
                 c, calls = it[1], it[2]
                 tcs = [ToolCall(id=f"c{x}", name=f"tool{x % 10}", arguments={"a": x // 10}) for x in calls]
                 if not tcs and c % 2 == 1:
@@ -1285,15 +1502,16 @@ class C18(Check):
                 c = cid(r.content)
                 lines.append([34, fr["dep"], 1, c, fr["nt"], fr["nc"], fr["ne"]])
                 return c
-            except ProviderError:
-                fr["exc"] = "provider"
-                lines.append([34, fr["dep"], 0, 0, fr["nt"], fr["nc"], fr["ne"]])
-                raise
             except Runaway as e:
                 fr["exc"] = f"runaway {e}"
                 raise
             except Exception as e:
-                fr["exc"] = f"{type(e).__name__}: {e}"
+                x = stubs.class_id(e)       # the provider's own exception (the very object), of whichever class?
+                if x is None:
+                    fr["exc"] = f"{type(e).__name__}: {e}"
+                    raise
+                fr["exc"], fr["exc_class"] = "provider", x
+                lines.append([34, fr["dep"], 0, x, fr["nt"], fr["nc"], fr["ne"]])
                 raise
             finally:
                 stack.pop()
@@ -1329,21 +1547,25 @@ class C18(Check):
             mito.register_function(f"tool{t}", mk(t, kind), description=f"tool {t}")
 
         exc = None
-        for j, (limit, auto) in enumerate(top_calls):
-            try:
-                run_twt(j, limit, auto, top=(j == 0))
-            except ProviderError:
-                pass
-            except Runaway as e:
-                exc = ("other", f"runaway {e}")
-            except Exception as e:
-                exc = ("other", f"{type(e).__name__}: {e}")
-            if exc:
-                break
-            peek()
-            lines.append([37, len(nuc.transcription_log)])
+        vt = VirtualTime(NU.time)       # a back-off inside the nucleus must not block the check
+        real_time, NU.time = NU.time, vt
+        try:
+            for j, (limit, auto) in enumerate(top_calls):
+                try:
+                    run_twt(j, limit, auto, top=(j == 0))
+                except Runaway as e:
+                    exc = ("other", f"runaway {e}")
+                except Exception as e:
+                    if stubs.class_id(e) is None:       # not the provider's own exception
+                        exc = ("other", f"{type(e).__name__}: {e}")
+                if exc:
+                    break
+                peek()
+                lines.append([37, len(nuc.transcription_log)])
+        finally:
+            NU.time = real_time
         trace = {"kind": "tool", "frames": frames, "exc": exc, "invoked": invoked, "lines": lines, "peeks": peeks,
-                 "detect_warnings": detect_warnings}
+                 "detect_warnings": detect_warnings, "slept": vt.slept, "raised": raised}
         if exc:
             return [[-997]], trace
         log = [cid(t.response.content) for t in nuc.transcription_log]
@@ -1371,7 +1593,7 @@ class C18(Check):
             return f"(CSwarm {body})"
 
         def pi(it):
-            return "PIRaise" if it[0] == "raise" else f"(PI {cz(it[1])} {czl(it[2])})"
+            return f"(PIRaise {cz(exc_of(it))})" if it[0] == "raise" else f"(PI {cz(it[1])} {czl(it[2])})"
         p = case["prov"]
         if p["fam"] == "script":
             pt = f"(PScript {clist([pi(i) for i in p['items']])} {pi(p['dflt'])})"
@@ -1379,10 +1601,13 @@ class C18(Check):
             pt = f"(PStopOnErr {pi(p['tools'])} {pi(p['plain'])})"
         elif p["fam"] == "bysub":
             pt = f"(PBySub {pi(p['top'])} {pi(p['sub'])})"
+        elif p["fam"] == "flaky":
+            pt = f"(PFlaky {cnat(p['period'])} {cnat(p['phase'])} {cz(p['exc'])} {pi(p['tools'])})"
         else:
             pt = f"(PChain {cz(p['c'])} {czl(p['first'])})"
         c = case["comp"]
-        ct = {"aff": f"(CAff {cz(c[1]) if len(c) > 1 else 0})", "raise": "CRaise", "raisefinal": "CRaiseFinal",
+        ct = {"aff": f"(CAff {cz(c[1]) if len(c) > 1 else 0})", "raise": f"(CRaise {cz(exc_of(c))})",
+              "raisefinal": f"(CRaiseFinal {cz(exc_of(c))})",
               "const": f"(CConst {cz(c[1]) if len(c) > 1 else 0})"}[c[0]]
 
         def tk(k):
@@ -1544,6 +1769,13 @@ class C18(Check):
         return None
 
     def _mon_tool(self, case, t):
+        v = self._mon_tool_frames(case, t)
+        if v is not None and t.get("raised"):
+            v.what += ("; the provider raised " + ", ".join(f"{EXC_NAMES[x]} (invocation {k} of {m})" for m, k, x in t["raised"][:4])
+                       + (f"; Nucleus.max_retries={case['nuc'][1]}" if case.get("nuc") else " (Nucleus.max_retries left at its default)"))
+        return v
+
+    def _mon_tool_frames(self, case, t):
         """the property, per activation: EVERY call of transcribe_with_tools (the outermost ones and those a tool made
         on the same nucleus while a round was being executed) performs at most its own max_iterations tool rounds
         plus one final completion, and returns unless the provider raised"""
@@ -1596,6 +1828,16 @@ class C18(Check):
                 tags.append(f"{k}:{tag}")
         if case.get("loud") and trace.get("stdout"):
             tags.append(f"{k}:printed-something")
+        ncalls = 1 + (case.get("again", 0) if k != "tool" else len(case.get("more", [])))
+        if ncalls >= 6:
+            tags.append(f"{k}:long-lived-object(>=6 calls)")
+        if ncalls >= 20:
+            tags.append(f"{k}:long-lived-object(>=20 calls)")
+        if k in ("heal", "swarm"):
+            for run in trace["runs"]:
+                if run["exc"] and run["exc"][0] in ("gen", "step", "factory"):
+                    tags.append(f"{k}:environment-raised-class={case.get('exc', 0)}")
+                    break
         if k == "heal":
             ncalls = len(trace["runs"][0]["calls"])
             tags.append(f"heal:outcome={['valid_first_try', 'healed', 'degraded', 'generator_raised'][obs[0][1]]}")
@@ -1617,6 +1859,10 @@ class C18(Check):
             tags.append(f"swarm:max_steps={case['max_steps']}")
             tags.append(f"swarm:workers={len(trace['spawned'])}")
             tags.append(f"swarm:fam={case.get('fam')}")
+            deaths = sum(l[2] for l in obs if l and l[0] == 23) and max(l[2] for l in obs if l and l[0] == 23)
+            if deaths:
+                tags.append("swarm:deaths-on-record=" + ("1..9" if deaths < 10 else "10..31" if deaths < 32 else
+                                                         "32..99" if deaths < 100 else ">=100"))
             m = case.get("mem")
             if m is not None:
                 tags.append("swarm:mem=" + (m if isinstance(m, str) else m[0]))
@@ -1658,10 +1904,29 @@ class C18(Check):
                 tags.append("tool:reentrant-transcribe")
             if case.get("more"):
                 tags.append("tool:consecutive-calls")
+            raised = sorted({f.get("exc_class") for f in trace["frames"] if f.get("exc") == "provider"})
+            for x in raised:
+                tags.append(f"tool:provider-raised-class={x}")
+            if raised and any(f["kind"] == "twt" and f["returned"] and i > 0 for i, f in enumerate(trace["frames"])):
+                later = False
+                for f in trace["frames"]:
+                    if f.get("exc") == "provider":
+                        later = True
+                    elif later and f["kind"] == "twt" and f["nt"] > 0:
+                        tags.append("tool:provider-used-again-after-a-failure")
+                        break
+            if trace.get("slept"):
+                tags.append("tool:nucleus-slept(virtual-clock)")
         return tags
 
     def shrink(self, case, pred):
         k = case["kind"]
+        if k in ("heal", "swarm") and case.get("again", 0) > 1:      # the shortest life of the object that still fails
+            for a in range(0, case["again"]):
+                c2 = {**case, "again": a} if a else {x: y for x, y in case.items() if x != "again"}
+                if pred(c2):
+                    case = c2
+                    break
         if k == "heal" and case["gen"]["fam"] == "script":
             items = common.shrink_list(case["gen"]["items"], lambda it: pred({**case, "gen": {**case["gen"], "items": it}}))
             return {**case, "gen": {**case["gen"], "items": items}}
@@ -1686,6 +1951,11 @@ class C18(Check):
             head = ("kind", "mem", "wk", "max_regen", "max_steps", "thr")      # limits first when the case is printed
             return {**{x: case[x] for x in head if x in case}, **{x: y for x, y in case.items() if x not in head}}
         if k == "tool":
+            for key in ("loud", "acc", "cfg", "nuc"):
+                if key in case:
+                    c2 = {x: y for x, y in case.items() if x != key}
+                    if pred(c2):
+                        case = c2
             if case.get("more"):
                 more = common.shrink_list(case["more"], lambda m: pred({**case, "more": m}))
                 case = {**case, "more": more}
